@@ -158,8 +158,13 @@ class Check:
         self.build_out = out
         if rc != 0 or "DRIVER-FAIL" in out:
             self.l1_broken.append(("executable-model", "the extracted model / driver does not build: " + out.strip()[-400:]))
+        users = {"tr_pathrules": ["C07"], "tr_constraints": ["C16"], "tr_forwarding": ["C11"], "tr_attrflow": ["C12"],
+                 "tr_kauriformulas": ["C08"], "tr_dataconstants": ["C20"]}
         for m in re.finditer(r"TRANSLATOR-FAIL (\S+)", out):
-            self.notes.append(f"regenerated tie unavailable: {m.group(1)} failed; relying on the correspondence")
+            name = os.path.basename(m.group(1))[:-3]
+            if self.pid in users.get(name, [self.pid]):
+                self.notes.append(f"regenerated tie unavailable: {m.group(1)} failed closed on the current sources; relying on the correspondence "
+                                  f"(the previously generated Gen file stays in place)")
         return out
 
     def build_failed(self, relpath):
